@@ -25,7 +25,10 @@ R = Registry(
         "wraps the escaped value between the quote characters, _requires_quotes keeps its four tests, quote() "
         "honours them, format_* helpers emit names only through the quoting functions (listed exceptions), "
         "compilers do not hand-quote identifiers; the unformat regex is built from the writer's triple and "
-        "decodes what the writer produces."
+        "decodes what the writer produces; the attributes the memoised quote() decision is computed from are "
+        "written after construction only together with a reset of the memo or on a preparer built in the same "
+        "function; regular expressions of the dialect modules that read quoted identifiers back from SQL text "
+        "(SQLite reflection) tie the closing delimiter to the opening one and accept the doubled quote."
     ),
     not_decided="execution of DDL/DML with such names and reflection; keyword cover for PostgreSQL/MySQL/MSSQL/Oracle "
                 "(no offline oracle).",
@@ -835,6 +838,496 @@ def r6(ctx):
                       f"identifier_preparer.{pred}(lower-cased name)", f.loc)
 
 
+# ------------------------------------------------------------------------------------------ R7
+def _self_closure(ix, cls: ClassInfo, start: FuncInfo, depth=3):
+    """`start` and the methods it reaches through `self.<m>(...)` calls, resolved through the MRO of `cls`."""
+    out, todo, seen = [], [(start, 0)], {start.key}
+    while todo:
+        f, d = todo.pop()
+        out.append(f)
+        if d >= depth:
+            continue
+        for c in calls_in(f.node):
+            if isinstance(c.func, ast.Attribute) and dotted(c.func.value) == "self":
+                h = ix.resolve_method(cls, c.func.attr)
+                if h is not None and h.key not in seen:
+                    seen.add(h.key)
+                    todo.append((h, d + 1))
+    return out
+
+
+def _memo_and_inputs(ctx, classes):
+    """(memo attributes of quote(): `self.<M>[name] = ...`, the data attributes of the preparer that the memoised
+    decision is computed from) -- over every class of the hierarchy, overrides included."""
+    ix = ctx.index
+    memos, inputs = set(), set()
+    for cls in classes:
+        q = ix.resolve_method(cls, "quote")
+        if q is None:
+            continue
+        fns = _self_closure(ix, cls, q)
+        for f in fns:
+            ctx.functions_analysed.add(f.key)
+            for n in walk_local(f.node):
+                if isinstance(n, ast.Subscript) and isinstance(n.ctx, ast.Store) and self_attr(n.value):
+                    memos.add(self_attr(n.value))
+        for f in fns:
+            called = {id(c.func) for c in calls_in(f.node)}
+            for n in walk_local(f.node):
+                a = self_attr(n) if isinstance(n, ast.Attribute) and isinstance(n.ctx, ast.Load) else None
+                if a and a not in memos and not (id(n) in called and ix.resolve_method(cls, a) is not None):
+                    inputs.add(a)
+    return memos, inputs - memos
+
+
+def _fresh_preparer_expr(ctx, fn: FuncInfo, e, prep_classes, depth=0) -> bool:
+    """Does the expression construct a new preparer: `<PreparerClass>(...)` or `<x>.preparer(...)` where the
+    class level `preparer` of the dialect hierarchy names a preparer class?"""
+    if not isinstance(e, ast.Call):
+        return False
+    d = dotted(e.func) or ""
+    if not d or "()" in d:
+        return False
+    r = ctx.index.resolve(fn.module, d)
+    if isinstance(r, ClassInfo) and r in prep_classes:
+        return True
+    if isinstance(e.func, ast.Attribute):
+        dd = ctx.index.cls("engine/default.py::DefaultDialect")
+        owner, vals = ctx.index.class_attr_nodes(dd, e.func.attr)
+        if owner is not None and vals:
+            t = ctx.index.resolve(owner.module, dotted(vals[-1]) or "")
+            if isinstance(t, ClassInfo) and t in prep_classes:
+                return True
+        if isinstance(r, tuple) and r and r[0] == "classvalue":
+            return True if e.func.attr == "preparer" else False
+    return False
+
+
+def _receiver_fresh_at(ctx, fn: FuncInfo, recv, node_stmt, prep_classes) -> bool:
+    """Is the object `recv` denotes at `node_stmt` a preparer constructed in this very function, on every path:
+    a local all of whose reaching values are constructions, or an attribute path whose store of a construction
+    dominates the use."""
+    from ._helpers_rob_c2 import Scope
+    sc = Scope(ctx, fn)
+    g = sc.g
+    use_nodes = g.nodes_for(node_stmt)
+    if not use_nodes:
+        return False
+
+    def fresh_value(v, at):
+        if isinstance(v, ast.Name):
+            orig = sc.origins(v, at)
+            return bool(orig) and all(kind == "expr" and _fresh_preparer_expr(ctx, fn, x, prep_classes)
+                                      for kind, x, _n in orig)
+        return _fresh_preparer_expr(ctx, fn, v, prep_classes)
+
+    if isinstance(recv, ast.Name):
+        return all(fresh_value(recv, u) for u in use_nodes)
+    path = dotted(recv)
+    if not path or "()" in path:
+        return False
+    stores = []
+    for n in g.nodes:
+        st = n.stmt
+        if n.kind != "stmt" or not isinstance(st, (ast.Assign, ast.AnnAssign)):
+            continue
+        tgs = st.targets if isinstance(st, ast.Assign) else [st.target]
+        if any(dotted(t) == path for t in tgs) and st.value is not None:
+            stores.append((n.id, st.value))
+    good = [nid for nid, v in stores if fresh_value(v, nid)]
+    bad = [nid for nid, v in stores if nid not in good]
+    if not good:
+        return False
+    for u in use_nodes:
+        if g.always_preceded(u, good) is not None:
+            return False
+        # no other store of the attribute between the construction and the use
+        if bad and g.witness(good, [u], avoid=(), edge_ok=None) is not None and \
+                any(g.witness(good, [b]) is not None and g.witness([b], [u]) is not None for b in bad):
+            return False
+    return True
+
+
+@R.rule("C06-R7", floor=2, template="T-OWN/T-PATH (memo invalidation)",
+        desc="IdentifierPreparer.quote() memoises its decision per name; the attributes that decision is computed "
+             "from (reserved_words, legal/illegal characters, quote characters ...) are written after construction "
+             "only by a method that also resets the memo, or on a preparer that was constructed in the same "
+             "function just before (so that nothing can be cached yet)")
+def r7(ctx):
+    ix = ctx.index
+    base, classes = _preparer_classes(ctx)
+    memos, inputs = _memo_and_inputs(ctx, classes)
+    ctx.require(memos and len(inputs) >= 3, f"quote(): memo {sorted(memos)} / inputs {sorted(inputs)} not understood")
+    ctx.ok(f"{PREP}.quote:memo-inputs", f"memo {sorted(memos)}; decision computed from {sorted(inputs)}")
+    prep_set = set(classes)
+
+    def resets_memo(st) -> bool:
+        if isinstance(st, ast.Assign) and any(self_attr(t) in memos for t in st.targets):
+            return True
+        if isinstance(st, ast.Expr) and isinstance(st.value, ast.Call) and isinstance(st.value.func, ast.Attribute) \
+                and st.value.func.attr == "clear" and self_attr(st.value.func.value) in memos:
+            return True
+        return False
+
+    # writers: methods of preparer classes (other than the constructor) that store to an input attribute
+    writers = []
+    for cls in classes:
+        for f in cls.methods.values():
+            if f.name in ("__init__", "__new__"):
+                continue
+            stores = [st for n_ in [0] for st in ast.walk(f.node)
+                      if isinstance(st, (ast.Assign, ast.AugAssign, ast.AnnAssign))
+                      and any(self_attr(t) in inputs for t in (st.targets if isinstance(st, ast.Assign) else [st.target]))]
+            stores += [st for st in ast.walk(f.node) if isinstance(st, ast.Expr) and isinstance(st.value, ast.Call)
+                       and isinstance(st.value.func, ast.Attribute)
+                       and st.value.func.attr in ("add", "update", "discard", "remove", "clear", "difference_update")
+                       and self_attr(st.value.func.value) in inputs]
+            if stores:
+                writers.append((cls, f, stores))
+    n_sites = 0
+    for cls, f, stores in sorted(writers, key=lambda w: w[1].key):
+        ctx.functions_analysed.add(f.key)
+        g = ctx.cfg(f)
+        store_nodes = [nid for st in stores for nid in g.nodes_for(st)]
+        reset_nodes = [n.id for n in g.nodes if n.stmt is not None and n.kind == "stmt" and resets_memo(n.stmt)]
+        attrs = sorted({self_attr(t) for st in stores if isinstance(st, (ast.Assign, ast.AugAssign, ast.AnnAssign))
+                        for t in (st.targets if isinstance(st, ast.Assign) else [st.target]) if self_attr(t) in inputs}
+                       | {self_attr(st.value.func.value) for st in stores if isinstance(st, ast.Expr)})
+        if reset_nodes and store_nodes and g.must_pass(store_nodes, [g.exit], reset_nodes, edge_ok=None) is None:
+            n_sites += 1
+            ctx.ok(f"{f.key}:memo-reset", f"writes {attrs} and resets {sorted(memos)} before returning")
+            continue
+        # otherwise every caller must hand it a preparer that cannot have cached anything yet
+        sites = []
+        for fn in ix.all_functions():
+            if fn.module.relpath.startswith("testing") or fn.type_only or fn.is_overload:
+                continue
+            for c in calls_in(fn.node):
+                if not (isinstance(c.func, ast.Attribute) and c.func.attr == f.name):
+                    continue
+                recv = c.func.value
+                if isinstance(recv, ast.Name) and recv.id in ("self", "cls") or (
+                        isinstance(recv, ast.Call) and dotted(recv.func) == "super"):
+                    tgt = ix.resolve_method(fn.cls, f.name) if fn.cls is not None else None
+                    if tgt is None or tgt.cls not in prep_set:
+                        continue  # a method of the same name on another kind of object (e.g. the dialect)
+                sites.append((fn, c))
+        if not sites:
+            ctx.note(f"{f.key}: writes {attrs} without resetting {sorted(memos)}; no call site in the package")
+            continue
+        pm_cache = {}
+        for fn, c in sites:
+            n_sites += 1
+            ctx.functions_analysed.add(fn.key)
+            pm = pm_cache.setdefault(fn.module.relpath, fn.module.parents())
+            from ..astutil import enclosing_stmt
+            st = enclosing_stmt(pm, c)
+            recv = c.func.value
+            if isinstance(recv, ast.Name) and recv.id in ("self", "cls") and fn.cls in prep_set and fn.name in ("__init__",):
+                ctx.ok(f"{fn.key}:{f.name}()", "called by the constructor")
+                continue
+            fresh = st is not None and _receiver_fresh_at(ctx, fn, recv, st, prep_set)
+            ctx.check(
+                fresh, f"{fn.key}:{f.name}()",
+                f"`{unparse(c)[:70]}` changes {attrs} of a preparer that may already have quoted names: "
+                f"{f.qualname} does not reset {sorted(memos)} (the per-name memo of IdentifierPreparer.quote), and "
+                f"`{unparse(recv)[:50]}` is not a preparer constructed in {fn.qualname} just before the call -- every "
+                f"name rendered before the switch keeps its cached (bare or quoted) form, e.g. a word that is "
+                f"reserved only under the new list stays unquoted",
+                f"`{unparse(recv)[:50]}` is constructed in this function before {f.name}() is applied",
+                f"{fn.module.path}:{c.lineno}")
+    ctx.require(n_sites >= 1, "no post-construction writer of a quoting input found (floor)")
+
+
+# ------------------------------------------------------------------------------------------ R8
+try:  # python >= 3.11
+    import re._parser as _sre_parse
+    import re._constants as _sre_c
+except ImportError:  # pragma: no cover
+    import sre_parse as _sre_parse
+    import sre_constants as _sre_c
+
+_OPENERS = {'"': '"', "'": "'", "`": "`", "[": "]"}
+_CLOSERS = set(_OPENERS.values())
+_RE_CALL_FLAGS_POS = {"compile": 1, "match": 2, "search": 2, "fullmatch": 2, "findall": 2, "finditer": 2, "split": 3,
+                      "sub": 4, "subn": 4}
+_RE_FLAG_BITS = {"I": re.I, "IGNORECASE": re.I, "X": re.X, "VERBOSE": re.X, "S": re.S, "DOTALL": re.S, "M": re.M,
+                 "MULTILINE": re.M, "A": re.A, "ASCII": re.A, "U": re.U, "UNICODE": re.U}
+
+
+def _const_text(e, lookup, depth=0):
+    """Constant string value of an expression (literals, `+`, names bound once to such), else None."""
+    if depth > 4:
+        return None
+    if isinstance(e, ast.Constant) and isinstance(e.value, str):
+        return e.value
+    if isinstance(e, ast.BinOp) and isinstance(e.op, ast.Add):
+        l, r_ = _const_text(e.left, lookup, depth + 1), _const_text(e.right, lookup, depth + 1)
+        return l + r_ if l is not None and r_ is not None else None
+    if isinstance(e, ast.Name):
+        v = lookup(e.id)
+        return _const_text(v, lookup, depth + 1) if v is not None else None
+    return None
+
+
+def _flag_bits(e):
+    if e is None:
+        return 0
+    if isinstance(e, ast.BinOp) and isinstance(e.op, ast.BitOr):
+        l, r_ = _flag_bits(e.left), _flag_bits(e.right)
+        return None if l is None or r_ is None else l | r_
+    d = dotted(e) or ""
+    if d.startswith("re.") and d[3:] in _RE_FLAG_BITS:
+        return int(_RE_FLAG_BITS[d[3:]])
+    if isinstance(e, ast.Constant) and isinstance(e.value, int):
+        return e.value
+    return None
+
+
+def _delim(item, closing: bool):
+    """A regex item that matches exactly one quote character: -> (set of chars | ('ref', group), optional?,
+    capturing group number or None); None if the item is something else."""
+    op, av = item
+    optional = False
+    if op in (_sre_c.MAX_REPEAT, _sre_c.MIN_REPEAT) and av[0] == 0 and av[1] == 1 and len(av[2]) == 1:
+        optional = True
+        op, av = av[2][0]
+    group = None
+    if op is _sre_c.SUBPATTERN and len(av[3]) == 1:
+        group = av[0]
+        op, av = av[3][0]
+    universe = _CLOSERS if closing else set(_OPENERS)
+    if op is _sre_c.LITERAL and chr(av) in universe:
+        return {chr(av)}, optional, group
+    if op is _sre_c.IN and av and all(o is _sre_c.LITERAL and chr(a) in universe for o, a in av):
+        return {chr(a) for _o, a in av}, optional, group
+    if op is _sre_c.GROUPREF and closing:
+        return ("ref", av), optional, group
+    return None
+
+
+def _leaf_can_match(item, ch: str) -> bool:
+    """Can this single-character matcher match `ch`?  (decided with the stdlib engine on the leaf itself)"""
+    op, av = item
+    if op is _sre_c.LITERAL:
+        return chr(av) == ch
+    if op is _sre_c.NOT_LITERAL:
+        return chr(av) != ch
+    if op is _sre_c.ANY:
+        return ch != "\n"
+    if op is _sre_c.IN:
+        neg = bool(av) and av[0][0] is _sre_c.NEGATE
+        hit = False
+        for o, a in av:
+            if o is _sre_c.LITERAL and chr(a) == ch:
+                hit = True
+            elif o is _sre_c.RANGE and a[0] <= ord(ch) <= a[1]:
+                hit = True
+            elif o is _sre_c.CATEGORY:
+                cat = str(a)
+                word = ch.isalnum() or ch == "_"
+                table = {"CATEGORY_WORD": word, "CATEGORY_NOT_WORD": not word, "CATEGORY_DIGIT": ch.isdigit(),
+                         "CATEGORY_NOT_DIGIT": not ch.isdigit(), "CATEGORY_SPACE": ch.isspace(),
+                         "CATEGORY_NOT_SPACE": not ch.isspace()}
+                hit = hit or table.get(cat, True)
+        return hit != neg
+    if op is _sre_c.CATEGORY:
+        return _leaf_can_match((_sre_c.IN, [(_sre_c.CATEGORY, av)]), ch)
+    return False
+
+
+def _body_facts(seq, q: str):
+    """(can some single-character matcher of the body match `q`, does the body have an alternative that is exactly
+    the doubled quote `q q`)"""
+    can, doubled = False, False
+    for op, av in seq:
+        if op is _sre_c.SUBPATTERN:
+            c, d = _body_facts(av[3], q)
+        elif op in (_sre_c.MAX_REPEAT, _sre_c.MIN_REPEAT, getattr(_sre_c, "POSSESSIVE_REPEAT", None)):
+            c, d = _body_facts(av[2], q)
+        elif op is _sre_c.BRANCH:
+            c = d = False
+            for alt in av[1]:
+                items = list(alt)
+                if len(items) == 2 and all(o is _sre_c.LITERAL and chr(a) == q for o, a in items):
+                    d = True
+                    continue
+                c2, d2 = _body_facts(alt, q)
+                c, d = c or c2, d or d2
+        elif op in (_sre_c.ASSERT, _sre_c.ASSERT_NOT, _sre_c.AT, _sre_c.GROUPREF):
+            c = d = False
+        else:
+            c, d = _leaf_can_match((op, av), q), False
+        can, doubled = can or c, doubled or d
+    return can, doubled
+
+
+def _quoted_spans(seq, out):
+    """Collect (opening delimiter, body items, closing delimiter, anchored at the end?) for every
+    `<quote> body <quote>` span of a parsed pattern, at any nesting depth."""
+    items = list(seq)
+    for i, (op, av) in enumerate(items):
+        if op is _sre_c.SUBPATTERN:
+            _quoted_spans(av[3], out)
+        elif op in (_sre_c.MAX_REPEAT, _sre_c.MIN_REPEAT):
+            _quoted_spans(av[2], out)
+        elif op is _sre_c.BRANCH:
+            for alt in av[1]:
+                _quoted_spans(alt, out)
+        elif op in (_sre_c.ASSERT, _sre_c.ASSERT_NOT):
+            _quoted_spans(av[1], out)
+    for i in range(1, len(items) - 1):
+        d1, d2 = _delim(items[i - 1], False), _delim(items[i + 1], True)
+        if d1 and d2 and items[i][0] in (_sre_c.SUBPATTERN, _sre_c.MAX_REPEAT, _sre_c.MIN_REPEAT) \
+                and not _delim(items[i], True):
+            anchored = i + 2 < len(items) and items[i + 2][0] is _sre_c.AT and "END" in str(items[i + 2][1])
+            out.append((d1, [items[i]], d2, anchored))
+
+
+def _dialect_quotes(ctx, m):
+    """(initial quote, final quote) of the identifier preparer defined in a dialect module; the base default
+    where the module's preparer does not choose constants."""
+    base = ctx.index.cls(PREP)
+    init = base.methods["__init__"]
+    from ..astutil import func_defaults
+    dflt = func_defaults(init.node)
+    iq = dflt.get("initial_quote")
+    ini = iq.value if isinstance(iq, ast.Constant) and isinstance(iq.value, str) else '"'
+    fin = ini
+    for c in m.classes.values():
+        if base in ctx.index.mro(c) and "__init__" in c.methods:
+            for call in calls_in(c.methods["__init__"].node):
+                if (call_name(call) or "").endswith("__init__"):
+                    kw = {k.arg: k.value for k in call.keywords if k.arg}
+                    a, b = kw.get("initial_quote"), kw.get("final_quote")
+                    if isinstance(a, ast.Constant) and isinstance(a.value, str):
+                        ini = fin = a.value
+                        if isinstance(b, ast.Constant) and isinstance(b.value, str):
+                            fin = b.value
+                    elif a is not None:
+                        return None  # chosen at run time (MySQL ansi quotes)
+    return ini, fin
+
+
+@R.rule("C06-R8", floor=10, template="T-TABLE (reader/writer agreement, regex structure)",
+        desc="every regular expression of a dialect's reflection code that reads a quoted identifier back out of SQL text "
+             "(`<quote> body <quote>` with the dialect's own quote character among the opening delimiters) agrees "
+             "with the preparer that wrote it: the closing delimiter is tied to the opening one (same literal pair "
+             "or a back-reference), never an independent set whose members the name may contain; and the body "
+             "accepts the doubled closing quote instead of ending at it")
+def r8(ctx):
+    n_sites = 0
+    dd = ctx.index.cls("engine/default.py::DefaultDialect")
+    for m in sorted(ctx.index.all_modules(), key=lambda x: x.relpath):
+        if not m.relpath.startswith("dialects/") or "/provision" in m.relpath:
+            continue
+        quotes = _dialect_quotes(ctx, m)
+        fns = sorted([f for f in ctx.index.all_functions(m) if not f.type_only and not f.is_overload], key=lambda f: f.key)
+        for fn in fns:
+            # reflection code only: methods of the dialect class / functions of a reflection module.  (Other quoted
+            # syntaxes parsed in dialect packages -- HSTORE / range / array literals -- have their own escapes.)
+            if not (m.relpath.endswith("reflection.py") or (fn.cls is not None and dd in ctx.index.mro(fn.cls))):
+                continue
+            stores = {}
+            for nm, v, _st in name_stores(fn.node, into_nested=True):
+                stores.setdefault(nm, []).append(v)
+
+            def lookup(name, stores=stores, fn=fn):
+                vals = stores.get(name)
+                if vals is None and fn.cls is not None:
+                    vals = fn.cls.assigns.get(name)
+                if vals is None:
+                    vals = m.assigns.get(name)
+                return vals[0] if vals and len(vals) == 1 else None
+
+            bad_delims, bad_escape, n_here, first_loc = [], [], 0, None
+            for c in sorted(calls_in(fn.node, into_nested=True), key=lambda c: (c.lineno, c.col_offset)):
+                d = dotted(c.func) or ""
+                pat_e = fe = None
+                if d.startswith("re.") and d[3:] in _RE_CALL_FLAGS_POS and c.args:
+                    pat_e = c.args[0]
+                    pos = _RE_CALL_FLAGS_POS[d[3:]]
+                    fe = c.args[pos] if len(c.args) > pos else next((kw.value for kw in c.keywords if kw.arg == "flags"), None)
+                elif isinstance(c.func, ast.Attribute) and c.func.attr in _RE_CALL_FLAGS_POS and c.func.attr != "compile":
+                    # <compiled constant>.finditer(...): a module / class level `re.compile(...)` used here
+                    rv = c.func.value
+                    comp = lookup(rv.id) if isinstance(rv, ast.Name) and rv.id not in stores else (
+                        lookup(rv.attr) if isinstance(rv, ast.Attribute) and dotted(rv.value) in ("self", "cls") else None)
+                    if isinstance(comp, ast.Call) and dotted(comp.func) == "re.compile" and comp.args:
+                        pat_e = comp.args[0]
+                        fe = comp.args[1] if len(comp.args) > 1 else next((kw.value for kw in comp.keywords if kw.arg == "flags"), None)
+                if pat_e is None:
+                    continue
+                text = _const_text(pat_e, lookup)
+                if text is None or "%(" in text:
+                    continue
+                flags = _flag_bits(fe)
+                if flags is None:
+                    continue
+                if not any(q in text for q in _OPENERS):
+                    continue
+                try:
+                    tree = _sre_parse.parse(text, flags)
+                except Exception:
+                    continue  # not a pattern (e.g. a replacement template resolved by name)
+                spans = []
+                _quoted_spans(tree, spans)
+                for d1, body, d2, anchored in spans:
+                    (open_chars, _oopt, ogroup), (close, _copt, _cg) = d1, d2
+                    if quotes is None or quotes[0] not in open_chars:
+                        continue  # quotes of string literals / of another syntax: not this dialect's identifiers
+                    n_here += 1
+                    first_loc = first_loc or f"{m.path}:{c.lineno}"
+                    shown = " ".join(text.split())[:70]
+                    # (a) tied delimiters
+                    bad = None
+                    if isinstance(close, tuple):
+                        if ogroup is None or close[1] != ogroup:
+                            bad = "the closing back-reference does not refer to the group that captured the opening quote"
+                        elif any(_OPENERS[o] != o for o in open_chars):
+                            bad = "a back-reference closes an asymmetric quote with its opening character"
+                    else:
+                        for o in sorted(open_chars):
+                            for cl in sorted(close):
+                                if cl != _OPENERS[o] and _body_facts(body, cl)[0]:
+                                    bad = (f"a name opened with {o!r} is closed by {cl!r}: opening {sorted(open_chars)} and "
+                                           f"closing {sorted(close)} are independent sets and the body can contain {cl!r}, so "
+                                           f"{o}na{cl}me{_OPENERS[o]} is read as `na`")
+                                    break
+                            if bad:
+                                break
+                            if _OPENERS[o] not in close:
+                                bad = f"a name opened with {o!r} can never be closed by {_OPENERS[o]!r}"
+                                break
+                    if bad:
+                        bad_delims.append(f"/{shown}/ (line {c.lineno}): {bad}")
+                    # (b) the doubled closing quote is part of the name
+                    if anchored:
+                        continue  # anchored at both ends: the body spans the whole quoted text
+                    fq = quotes[1]
+                    can, doubled = _body_facts(body, fq)
+                    if not (doubled and not can):
+                        bad_escape.append(
+                            f"/{shown}/ (line {c.lineno}): the body "
+                            + ("matches a lone quote like any other character" if can else "cannot contain the quote at all")
+                            + (" and has no alternative for the doubled quote" if not doubled else ""))
+            if not n_here:
+                continue
+            n_sites += n_here
+            ctx.functions_analysed.add(fn.key)
+            key = f"{fn.key}:quoted-identifier-regex"
+            ctx.check(not bad_delims, key + ":delimiters",
+                      "a quoted identifier is read with delimiters that are not tied together: " + "; ".join(bad_delims),
+                      f"{n_here} quoted-name span(s): closing delimiter tied to the opening one", first_loc)
+            fq = quotes[1]
+            ctx.check(not bad_escape, key + ":escape",
+                      f"the writer (quote_identifier) doubles a {fq!r} inside a name, the reader does not take the doubled "
+                      f"quote for an escaped one -- {quotes[0]}a{fq}{fq}b{fq} is read back as `a` (or, where the text after "
+                      f"the closing quote forces the match on, as the still escaped `a{fq}{fq}b`): " + "; ".join(bad_escape),
+                      f"{n_here} quoted-name span(s): body = (not {fq!r} | {fq!r}{fq!r})*", first_loc)
+    ctx.require(n_sites >= 4, f"only {n_sites} quoted-identifier spans found in dialect regular expressions")
+
+
 # ------------------------------------------------------------------------------------------ self test
 R.mutant("r1-mssql-unescape-wrong-char", "dialects/mssql/base.py",
          sub('        return value.replace("]]", "]")\n', '        return value.replace("[[", "[")\n'), "C06-R1")
@@ -1019,3 +1512,50 @@ R.mutant("benign-denormalize-helper", "engine/default.py",
          sub("        elif name_lower == name and not (\n            self.identifier_preparer._requires_quotes\n        )(name_lower):\n            name = name_upper\n        return name\n",
              "        elif name_lower == name and self._rendered_bare(name_lower):\n            name = name_upper\n        return name\n\n"
              "    def _rendered_bare(self, lowered):\n        return not self.identifier_preparer._requires_quotes(lowered)\n"), None)
+
+# ---- str2-a (round 2 seeds) ---------------------------------------------------------------------------------
+SHIM = "dialects/mysql/_mariadb_shim.py"
+_SHIM_OLD = ("            self.identifier_preparer = self.preparer(self)\n"
+             "            self.identifier_preparer._set_mariadb()\n")
+_SHIM_WRITER = "    def _set_mariadb(self) -> None:\n        self.reserved_words = RESERVED_WORDS_MARIADB\n"
+# seed C06_4: the existing preparer (whose memo may be filled) is switched to the MariaDB word list in place
+R.mutant("r7-seed4-mariadb-preparer-switched-in-place", SHIM,
+         sub(_SHIM_OLD, "            self.identifier_preparer._set_mariadb()\n"), "C06-R7")
+R.mutant("r7-new-preparer-stored-elsewhere", SHIM,
+         sub(_SHIM_OLD, "            self._mariadb_preparer = self.preparer(self)\n"
+             "            self.identifier_preparer._set_mariadb()\n"), "C06-R7")
+R.mutant("r7-preparer-switched-before-it-is-rebuilt", SHIM,
+         sub(_SHIM_OLD, "            preparer = self.identifier_preparer\n            preparer._set_mariadb()\n"
+             "            self.identifier_preparer = self.preparer(self)\n"), "C06-R7")
+R.mutant("benign-mariadb-preparer-built-in-a-local", SHIM,
+         sub(_SHIM_OLD, "            new_preparer = self.preparer(self)\n            new_preparer._set_mariadb()\n"
+             "            self.identifier_preparer = new_preparer\n"), None)
+R.mutant("benign-mariadb-switch-in-place-with-memo-reset", SHIM, chain(
+    sub(_SHIM_OLD, "            self.identifier_preparer._set_mariadb()\n"),
+    sub(_SHIM_WRITER, _SHIM_WRITER + "        self._strings = {}\n")), None)
+R.mutant("benign-mariadb-preparer-built-by-a-helper", SHIM, chain(
+    sub(_SHIM_OLD, "            self.identifier_preparer = self._mariadb_preparer()\n"),
+    sub("    @property\n    def _mariadb_normalized_version_info(self) -> tuple[int, ...]:\n",
+        "    def _mariadb_preparer(self):\n        built = self.preparer(self)\n        built._set_mariadb()\n        return built\n\n"
+        "    @property\n    def _mariadb_normalized_version_info(self) -> tuple[int, ...]:\n")), None)
+R.mutant("r7-memo-reset-only-on-one-branch", SHIM, chain(
+    sub(_SHIM_OLD, "            self.identifier_preparer._set_mariadb()\n"),
+    sub(_SHIM_WRITER, _SHIM_WRITER + "        if len(self._strings) > 1000:\n            self._strings = {}\n")), "C06-R7")
+
+SQLITE = "dialects/sqlite/base.py"
+_SIG_OLD = "        for match in re.finditer(r'(?:\"(.+?)\")|([a-z0-9_]+)', sig, re.I):\n"
+# seed C06_3: any of " ' ` opens and any of them closes the column name
+R.mutant("r8-seed3-cols-in-sig-untied-quote-sets", SQLITE,
+         sub(_SIG_OLD, "        for match in re.finditer(\n            r\"\"\"(?:[\"'`](.+?)[\"'`])|([a-z0-9_]+)\"\"\", sig, re.I\n        ):\n"), "C06-R8")
+R.mutant("r8-fk-referred-table-bracket-or-quote", SQLITE,
+         sub("r'REFERENCES\\s+(?:(?:\"(.+?)\")|([a-z0-9_]+))", "r'REFERENCES\\s+(?:(?:[\"\\[](.+?)[\"\\]])|([a-z0-9_]+))"), "C06-R8")
+R.mutant("r8-pk-name-closed-by-backreference-to-wrong-group", SQLITE,
+         sub("PK_PATTERN = r'CONSTRAINT\\s+(?:\"(.+?)\"|(\\w+))\\s+PRIMARY\\s+KEY'",
+             "PK_PATTERN = r'(CONSTRAINT)\\s+(?:([\"`])(.+?)\\1|(\\w+))\\s+PRIMARY\\s+KEY'"), "C06-R8")
+R.mutant("benign-cols-in-sig-pattern-hoisted-and-split", SQLITE, chain(
+    sub(_SIG_OLD, "        for match in self._COLS_IN_SIG.finditer(sig):\n"),
+    sub("    def _find_cols_in_sig(self, sig):\n",
+        "    _COLS_IN_SIG = re.compile(r'(?:\"(.+?)\")' + r\"|([a-z0-9_]+)\", re.I)\n\n    def _find_cols_in_sig(self, sig):\n")), None)
+R.mutant("benign-cols-in-sig-each-quote-style-tied", SQLITE,
+         sub(_SIG_OLD, "        pattern = r'(?:\"(.+?)\")|(?:`(?:[^`]|``)+`)|([a-z0-9_]+)'\n"
+             "        for match in re.finditer(pattern, sig, re.I):\n"), None)
